@@ -243,9 +243,13 @@ package verifier
 //@   ensures[iff] result == nil <==> mOkData(rmv.momentum)
 //@   modifies nothing
 
+// The account blocks delivered beside a momentum are exactly the blocks its signed content lists: as many distinct
+// identifiers as headers (and every header is found among them: the loop), so no delivered block is left unreferenced.
+// (C16: InsertChain force-adds every delivered block to the pool before the momentum is verified.)
 //@ func rawMomentumVerifier.content(rmv)
 //@   requires rmv != nil && rmv.momentum != nil
 //@   ensures[size] result == nil ==> mOkSize(rmv.momentum)
+//@   ensures-local[as-many-delivered-blocks-as-headers] result == nil ==> len(blocksLookup) == len(rmv.momentum.Content)
 
 //@ func rawMomentumVerifier.all(rmv)
 //@   requires rmv != nil && rmv.momentum != nil
